@@ -59,5 +59,11 @@ TEXTS = {
         "level_note": "Trusts the in-process links (h/cluster.go implements the follow contract of server.followSource), the quiescence criteria built on the verif hooks, and the standalone database as oracle (itself checked by C01/C06).",
         "technique": "property-based testing (rapid), differential oracle against a standalone database",
     },
+    "C20": {
+        "level_text": "Exploration: round-trip plus behavioural-equality law over generated expression trees and messages (tens of thousands per run), and a differential between RPC-answered and embedded queries over generated datasets on a real loopback gRPC server. The follower-answers-for-leader path over RPC is exercised by the C12 RPC tier when built; in-process remote handlers are C10's.",
+        "design_ref": "DESIGN.md section 4 C20",
+        "level_note": "Trusts the denotational evaluator for the value check and the embedded query as the oracle for the RPC one.",
+        "technique": "property-based testing (rapid), round-trip + behavioural equality, differential RPC vs embedded",
+    },
 }
 NOT_APPLICABLE = []
